@@ -652,6 +652,9 @@ func (e *c15Env) run(tag string, f *c15Filter, cf *c15Compiled, inv c15Inv, base
 			c.SetAdd("kinds_filtered", all[i].Kind)
 		}
 	}
+	if c15SamePositionAtRisk(all, reason) {
+		c.Count("runs_same_position_group_remains_and_earlier_collected_diagnostic_filtered", 1)
+	}
 	if !joinedCfgOK || !c15Equal(want, altJoinedCfg) {
 		c.Count("runs_discriminating_config_patterns_one_by_one_vs_joined", 1)
 	}
@@ -714,6 +717,9 @@ func (e *c15Env) run(tag string, f *c15Filter, cf *c15Compiled, inv c15Inv, base
 	if !c15Equal(got, want) {
 		sig, what := "", ""
 		switch {
+		case c15SameMultiset(got, want) && c15SameUpToEqualPositions(got, want):
+			sig = "C15:diagnostics-at-one-position-reordered-by-filtering"
+			what = "the output has the expected diagnostics but those that share file, line and column come in another order than in the unfiltered run"
 		case hasAlias && c15Equal(got, altAliasName):
 			sig = "C15:ignore-alias-element-compiled-as-anchor-name"
 			what = "an element of an `ignore` list written as a YAML alias (*name) is compiled from the anchor NAME instead of the aliased pattern: the output equals the filter with the names as patterns"
@@ -921,6 +927,71 @@ func c15CountDecisive(c *Case, p *c15Project, f *c15Filter, cf *c15Compiled, bas
 	}
 }
 
+// c15RuleOrder approximates the order in which diagnostics are collected before sorting: parse
+// errors first, then rule by rule in the order the linter registers them.
+var c15RuleOrder = map[string]int{"syntax-check": 0, "matrix": 1, "credentials": 2, "shell-name": 3, "runner-label": 4, "events": 5, "job-needs": 6, "action": 7, "env-var": 8, "id": 9, "glob": 10, "permissions": 11, "workflow-call": 12, "expression": 13, "deprecated-commands": 14, "if-cond": 15}
+
+// c15SamePositionAtRisk: two or more REMAINING diagnostics share a position and a diagnostic of the
+// same file that is collected before them is filtered (coverage only).
+func c15SamePositionAtRisk(all []c15Diag, reason []string) bool {
+	type pos struct {
+		f    string
+		l, c int
+	}
+	before := func(a, b c15Diag) bool {
+		ra, rb := c15RuleOrder[a.Kind], c15RuleOrder[b.Kind]
+		if ra != rb {
+			return ra < rb
+		}
+		return a.Line < b.Line || a.Line == b.Line && a.Col < b.Col
+	}
+	group := map[pos][]int{}
+	for i, d := range all {
+		if reason[i] == "" {
+			p := pos{d.File, d.Line, d.Col}
+			group[p] = append(group[p], i)
+		}
+	}
+	for i, d := range all {
+		if reason[i] == "" {
+			continue
+		}
+		for p, g := range group {
+			if len(g) >= 2 && p.f == d.File && before(d, all[g[0]]) {
+				return true
+			}
+		}
+	}
+	return false
+}
+
+func c15SameMultiset(a, b []c15Diag) bool {
+	if len(a) != len(b) {
+		return false
+	}
+	m := map[c15Diag]int{}
+	for _, d := range a {
+		m[d]++
+	}
+	for _, d := range b {
+		m[d]--
+		if m[d] < 0 {
+			return false
+		}
+	}
+	return true
+}
+
+// c15SameUpToEqualPositions: the sequences agree in (file, line, column) element by element.
+func c15SameUpToEqualPositions(a, b []c15Diag) bool {
+	for i := range a {
+		if a[i].File != b[i].File || a[i].Line != b[i].Line || a[i].Col != b[i].Col {
+			return false
+		}
+	}
+	return true
+}
+
 // linkNotes describes the symbolic links of the scratch layout for a replay file.
 func (e *c15Env) linkNotes() []string {
 	out := []string{"<scratch>/lnk-repo -> " + e.p.relRoot(), "<scratch>/lnk-parent -> parent directory of the repository"}
@@ -1097,6 +1168,8 @@ var c15BadConfigs = []struct{ class, content string }{
 	{"ignore-not-a-sequence", "paths:\n  '**/*.yml':\n    ignore:\n      a: b\n"},
 	{"ignore-element-not-a-string", "paths:\n  '**':\n    ignore:\n      - [a, b]\n"},
 	{"ignore-element-not-a-string", "paths:\n  '**/*.yml':\n    ignore:\n      - 'fine'\n      - {a: b}\n"},
+	{"ignore-element-null", "paths:\n  '**':\n    ignore:\n      - \n"},
+	{"ignore-element-null", "paths:\n  '**/*.yml':\n    ignore:\n      - 'fine'\n      -\n      - 'x'\n"},
 	{"duplicate-glob-key", "paths:\n  '**':\n    ignore: []\n  '**':\n    ignore: []\n"},
 }
 
@@ -1228,7 +1301,7 @@ func c15FatalCase(c *Case) {
 }
 
 func runC15(r *Run) {
-	r.Rule = "scratch repositories (.git marker, 2-7 workflows in .github/workflows and nested sub-directories carrying diagnostics of ~15 kinds with random identifiers, optional base config) linted by the real CLI binary in child processes; per repository one unfiltered baseline and 6 filter sets (none / -ignore / `paths` ignore / both / everything filtered / random) x 8 (cwd, spelling) pairs out of {root, parent, nested, .github/workflows, .github, unrelated} x {relative, ./, absolute, unclean relative, no arguments}, all files / one file / permuted subset, JSON or -oneline output; expected = baseline minus messages matched by Go regexp under globs matched by doublestar against the root-relative path. Patterns: derived from the observed messages (word, quoted token, anchored prefix/suffix/full, alternation, case-insensitive) and static ones matching nothing / everything / kind names / path-like text. Lists of interacting patterns (inline flags (?i) (?s) (?U) (?m) in a non-last pattern followed by a pattern matching only under that flag, (?i:...) groups, (?-i), anchors in every pattern, alternations and empty alternatives inside a pattern, empty patterns, equal group names) in -ignore and in config ignore lists; the reference compiles each pattern alone. Repository layouts: .git directory; .git regular FILE (linked worktree); .git file (submodule) or .git directory nested in vendor/ of an outer ordinary clone that has its own different (sometimes broken) configuration, additionally linted from the outer root; the repository of a file is the nearest ancestor with .github/workflows and a .git entry. `paths` globs cover the doublestar syntax: literal path, *, **, ?, [abc], [a-c], [^a]/[!a], {a,b} on file names / directories / extensions, nested {a,{b,c}}, empty alternative {,x}, backslash escapes, leading ./, trailing /, combinations; file names with spaces, non-ASCII and glob meta characters; each derived from a project file to match it or to miss it narrowly, classified by a scanner of the glob text; invalid globs (unbalanced [ or {, dangling escape; decided by doublestar.ValidatePattern) only in the fatal family. Symbolic links: the repository reached through a link to its root or to its parent directory (relative / absolute spelling, cwd outside and inside the link with PWD spelled through the link), .github or .github/workflows being a link to a directory elsewhere, workflow files that are links to other workflows or to files outside; the glob applies to the path relative to the root as reached. Input from stdin (`-`) with -stdin-filename naming an existing file of the repository (the repository's configuration applies to that name), a file outside any repository, a missing file, or without a name (no configuration applies; only -ignore). `ignore` elements and whole lists written as YAML aliases. Fatal family: missing file, invalid -ignore regexp, invalid regexp / glob / YAML in config, missing -config-file, no repository, unknown or malformed flags. Non-trivial = run in which the filter removes at least one diagnostic, or a fatal scenario."
+	r.Rule = "scratch repositories (.git marker, 2-7 workflows in .github/workflows and nested sub-directories carrying diagnostics of ~15 kinds with random identifiers, optional base config) linted by the real CLI binary in child processes; per repository one unfiltered baseline and 6 filter sets (none / -ignore / `paths` ignore / both / everything filtered / random) x 8 (cwd, spelling) pairs out of {root, parent, nested, .github/workflows, .github, unrelated} x {relative, ./, absolute, unclean relative, no arguments}, all files / one file / permuted subset, JSON or -oneline output; expected = baseline minus messages matched by Go regexp under globs matched by doublestar against the root-relative path. Patterns: derived from the observed messages (word, quoted token, anchored prefix/suffix/full, alternation, case-insensitive) and static ones matching nothing / everything / kind names / path-like text. Lists of interacting patterns (inline flags (?i) (?s) (?U) (?m) in a non-last pattern followed by a pattern matching only under that flag, (?i:...) groups, (?-i), anchors in every pattern, alternations and empty alternatives inside a pattern, empty patterns, equal group names) in -ignore and in config ignore lists; the reference compiles each pattern alone. Repository layouts: .git directory; .git regular FILE (linked worktree); .git file (submodule) or .git directory nested in vendor/ of an outer ordinary clone that has its own different (sometimes broken) configuration, additionally linted from the outer root; the repository of a file is the nearest ancestor with .github/workflows and a .git entry. `paths` globs cover the doublestar syntax: literal path, *, **, ?, [abc], [a-c], [^a]/[!a], {a,b} on file names / directories / extensions, nested {a,{b,c}}, empty alternative {,x}, backslash escapes, leading ./, trailing /, combinations; file names with spaces, non-ASCII and glob meta characters; each derived from a project file to match it or to miss it narrowly, classified by a scanner of the glob text; invalid globs (unbalanced [ or {, dangling escape; decided by doublestar.ValidatePattern) only in the fatal family. Symbolic links: the repository reached through a link to its root or to its parent directory (relative / absolute spelling, cwd outside and inside the link with PWD spelled through the link), .github or .github/workflows being a link to a directory elsewhere, workflow files that are links to other workflows or to files outside; the glob applies to the path relative to the root as reached. Input from stdin (`-`) with -stdin-filename naming an existing file of the repository (the repository's configuration applies to that name), a file outside any repository, a missing file, or without a name (no configuration applies; only -ignore). `ignore` elements and whole lists written as YAML aliases. Workflows also carry groups of diagnostics at ONE position (missing required inputs of popular actions with two or more of them, a job without runs-on and steps, a file without on and jobs); the comparison is an exact sequence comparison, so their relative order after filtering must be that of the unfiltered run. Fatal family: missing file, invalid -ignore regexp, invalid regexp / glob / YAML in config, missing -config-file, no repository, unknown or malformed flags. Non-trivial = run in which the filter removes at least one diagnostic, or a fatal scenario."
 	r.Assume("diagnostics of one workflow file do not depend on the other files of the run (no local actions / reusable workflows are generated), so the unfiltered list of any file subset is the concatenation of the per-file baselines in command line order")
 	r.Assume("Go regexp and doublestar.Match (the documented matchers) define 'matches'; shellcheck and pyflakes are disabled with -shellcheck= -pyflakes=")
 	r.Assume("which configuration file applies is not examined: -config-file is only used when the repository has no .github/actionlint.y(a)ml; stdin input and several repositories in one run are excluded (C10)")
@@ -1277,6 +1350,7 @@ func runC15(r *Run) {
 		"runs_discriminating_alias_element_value_vs_anchor_name", "runs_config_decides_with_aliased_ignore_list"} {
 		need(r.Counter(k) >= int64(r.Q(3, 40)), fmt.Sprintf("coverage counter %s = %d, need %d", k, r.Counter(k), r.Q(3, 40)))
 	}
+	need(r.Counter("runs_same_position_group_remains_and_earlier_collected_diagnostic_filtered") >= int64(r.Q(50, 1000)), fmt.Sprintf("only %d runs in which two or more remaining diagnostics share a position while a diagnostic collected before them is filtered", r.Counter("runs_same_position_group_remains_and_earlier_collected_diagnostic_filtered")))
 	nGlob := int64(r.Q(3, 40))
 	for _, syn := range c15GlobSyntax {
 		m, n := r.Counter("glob_decisive_match_alone_"+syn), r.Counter("glob_decisive_nomatch_alone_"+syn)
